@@ -127,6 +127,13 @@ def run_unit(unit, repo, workdir, rlimit=None, timeout=900):
                     name = m.group(1) or m.group(2)
                     break
             assumptions.append("%s: %s" % (unit, (ln.strip() + " " + name).strip()))
+        # axioms and uninterpreted specification functions are assumptions as well
+        m = re.search(r"\baxiom\s+fn\s+([A-Za-z_][A-Za-z0-9_]*)", ln)
+        if m:
+            assumptions.append("%s: axiom %s" % (unit, m.group(1)))
+        m = re.search(r"\buninterp\s+spec\s+fn\s+([A-Za-z_][A-Za-z0-9_]*)", ln)
+        if m:
+            assumptions.append("%s: uninterpreted spec fn %s" % (unit, m.group(1)))
     res["assumptions"] = sorted(set(assumptions))
     try:
         out = json.loads(p.stdout)
